@@ -334,8 +334,13 @@ def run_script(script):
         elif k == 'start':
             if ss is not None:
                 return False
-            box['ss'] = ServerSet(zk, '/svc', on_join, on_leave,
-                                  member_filter=lambda name: name.startswith('member_'))
+            # built the way a client builds it: through the real ZooKeeperServerSetProvider (its member-prefix
+            # filter and its wiring of the callbacks are code under test), over the harness's KazooClient
+            from scales.loadbalancer.serverset import ZooKeeperServerSetProvider
+            prov = ZooKeeperServerSetProvider(zk, '/svc', member_prefix='member_')
+            prov.Initialize(on_join, on_leave)
+            box['prov'] = prov
+            box['ss'] = prov._server_set
             text, labelled = 'start', True
         elif k == 'deliver':
             if ss is None or not zk.pending:
